@@ -258,6 +258,27 @@ def c05(trace, end):
     for ev in trace:
         if ev[0] == 'final-call-effect':
             probs.append(('final-order-call-has-effect', {'call': ev[2]}, '%s() on final order %d changed the state: %r' % (ev[2], ev[1], ev[3])))
+    # active list at the end of every simulator step: an order that was already final when this step's strategies started to
+    # run must be gone (one that another route's strategy finalised during this very step may still be listed)
+    final_idx = {}
+    for i, ev in enumerate(trace):
+        if ev[0] in ('exec', 'cancel') and not ev[3]:
+            final_idx.setdefault(ev[1], i)
+    prev_end = -1
+    first_hook = None
+    for i, ev in enumerate(trace):
+        if ev[0] == 'hook' and first_hook is None:
+            first_hook = i
+        elif ev[0] == 'step-end':
+            prev_end, first_hook = i, None
+        elif ev[0] == 'active-list':
+            h = first_hook if first_hook is not None else i
+            old = [o for o in ev[3] if final_idx.get(o, i) < h]
+            if old or ev[4]:
+                probs.append(('active-list', {'stale': bool(old), 'missing': bool(ev[4])},
+                              'at the end of the step at %r the active orders of %s still contain orders %s that were final before the step\'s strategies ran / lack non-final orders %s'
+                              % (ev[2], ev[1], old, ev[4])))
+                break
     nfinal_calls = sum(1 for ev in trace if ev[0] in ('exec', 'cancel') and ev[3])
     if end:
         member = {}
